@@ -7,6 +7,7 @@ from fractions import Fraction
 
 from hypothesis import strategies as st
 
+from vf import scenario_kit  # noqa: F401  (installs the Ray double before resonaate is imported)
 from vf.runner import Prop, Skip, Violation
 from vf.strategies.instants import instants, iso, parse
 
@@ -225,3 +226,86 @@ def target_jd(case, rec):
     rec.err("target_offset_s", err)
     if err > 1e-4:
         raise Violation("target_offset", f"target JD - start JD = {d}s off by {err:.3e} s")
+
+
+# ------------------------------------------------------------------------------------------------
+def _timed_cases():
+    from vf.strategies.instants import eop_instants
+
+    dts = st.one_of(st.sampled_from([2, 3, 5, 7, 10, 30, 60, 90, 120, 300, 600]), st.integers(2, 900))
+
+    def mk(t, dt, runs):
+        out = []
+        for k, frac in runs:
+            r = 0 if frac is None else max(0, min(dt - 1, int(frac * dt)))
+            out.append(k * dt + r)
+        return {"start": iso(t), "dt": dt, "durations_s": out}
+
+    run = st.tuples(st.integers(0, 12), st.one_of(st.none(), st.floats(0, 1, exclude_max=True), st.just(0.999)))
+    return st.builds(mk, eop_instants(margin_days=3), dts, st.lists(run, min_size=1, max_size=3))
+
+
+@PROP.clause("timed_run", strategy=_timed_cases, quick=160, thorough=4000, shards=8, shrink=True)
+def timed_run(case, rec):
+    """real Scenario.propagateTo for duration D advances floor(D/dt) steps; recorded epochs are start+k*dt"""
+    from vf import scenario_kit as kit
+    from resonaate.physics.time.conversions import getTargetJulianDate
+
+    t0 = parse(case["start"])
+    dt = case["dt"]
+    durs = case["durations_s"]
+    total = sum(durs)
+    tgt = kit.eci_target(10001, kit.circular_state_over(10.0, 20.0, t0, 9000.0))
+    sen = kit.ground_sensor(20001, 10.0, 20.0)
+    cfg = kit.scenario_config(t0, t0 + timedelta(seconds=total + 2 * dt), dt, [kit.engine(1, [sen], [tgt])], truth_only=True)
+    sc = kit.build(cfg)
+    if t0.second or any(d % dt for d in durs):
+        rec.nontrivial([case["start"], dt, durs])
+    steps_done = 0
+    for d in durs:
+        calls = []
+        orig = sc.stepForward
+
+        def counted(_orig=orig, _calls=calls):
+            _calls.append(1)
+            return _orig()
+
+        sc.stepForward = counted
+        target = getTargetJulianDate(sc.clock.julian_date_epoch, timedelta(seconds=d))
+        want = d // dt
+        try:
+            sc.propagateTo(target)
+            raised = False
+        except ValueError:
+            raised = True
+        finally:
+            sc.stepForward = orig
+        if raised and want > 0:
+            raise Violation("refused", f"propagateTo refused a duration of {d}s >= step {dt}s from {iso(t0)}+{steps_done * dt}s")
+        if len(calls) != want:
+            raise Violation("step_count", f"duration {d}s with step {dt}s from {iso(t0)}+{steps_done * dt}s advanced {len(calls)} steps, expected {want}")
+        steps_done += want
+        now = t0 + timedelta(seconds=steps_done * dt)
+        if sc.clock.datetime_epoch != now:
+            raise Violation("clock_epoch", f"clock says {sc.clock.datetime_epoch}, expected {now}")
+        if float(sc.clock.time) != steps_done * dt:
+            raise Violation("clock_time", f"clock.time {float(sc.clock.time)} != {steps_done * dt}")
+        for ag in list(sc.target_agents.values()) + list(sc.sensor_agents.values()):
+            if float(ag.time) != steps_done * dt:
+                raise Violation("agent_time", f"agent {ag.simulation_id} time {float(ag.time)} != {steps_done * dt}")
+    # recorded epochs (truth rows join epochs): exactly start + k*dt, k = 0..steps_done
+    rows = kit.raw_sql(
+        "select distinct e.timestampISO, e.julian_date from truth_ephemerides t join epochs e on t.julian_date = e.julian_date "
+        "order by e.julian_date")
+    got = [datetime.fromisoformat(r[0]) for r in rows]
+    want_epochs = [t0 + timedelta(seconds=k * dt) for k in range(steps_done + 1)]
+    if got != want_epochs:
+        raise Violation("recorded_epochs", f"recorded epochs {[iso(g) for g in got][:6]}.. (n={len(got)}), expected start+k*{dt}s for k=0..{steps_done}")
+    n_rows = kit.raw_sql("select count(*) from truth_ephemerides")[0][0]
+    if n_rows != 2 * (steps_done + 1):
+        raise Violation("recorded_rows", f"{n_rows} truth rows for 2 agents and {steps_done + 1} epochs")
+    from resonaate.physics.time.stardate import datetimeToJulianDate
+
+    for (ts, jd), w in zip(rows, want_epochs):
+        if abs(float(jd) - float(datetimeToJulianDate(w))) * 86400 > 1e-4:
+            raise Violation("recorded_jd", f"epoch row {ts} has JD {jd!r}, off from calendar by more than 0.1 ms")
